@@ -103,6 +103,9 @@ def callee_reindex(ex, st, a, k, node):
 
 def finalize_models(prims):
     prims.register("flox.xrdtypes.maybe_promote", lambda ex, st, a, k, n: (Opaque("promoted-dtype"), V.nan))
+    prims.register("pandas.Index", callee_pd_index)
+    prims.register("pandas.RangeIndex", callee_range_index)
+    prims.register("numpy.full_like", callee_full_like)
 
 
 FIN_CALLEES = {"_squeeze_results": callee_squeeze, "reindex_": callee_reindex}
@@ -145,12 +148,29 @@ class IndexRec(Record):
         super().__init__("Index", labels=labels)
         self.labels = labels
 
+    def pyvc_len(self):
+        return self.labels.length
+
     def pyvc_getattr(self, ex, st, attr, node, prims):
         from ..pyvc.prims import Method
 
+        if attr == "ndim":
+            return 1
+        if attr == "dtype":
+            return Record("dtype", kind="i")
+        if attr == "size":
+            return self.labels.length
         return Method(self, attr)
 
+    def pyvc_getitem(self, ex, st, idx, node, prims):
+        return prims.getitem(ex, st, self.labels, idx, node)
+
     def pyvc_method(self, ex, st, attr, args, kwargs, node, prims):
+        if attr == "equals":
+            # pandas.Index.equals (ASSUMED): same length and the same labels position by position
+            other = args[0].labels
+            i = fresh("i")
+            return z3.And(other.length == self.labels.length, forall(i, z3.Implies(in_range(i, 0, other.length), other.at(i) == self.labels.at(i))))
         if attr != "get_indexer":
             raise NotImplementedError(attr)
         to = args[0].labels
@@ -213,21 +233,36 @@ def replay_reindex_numpy(cm):
     return r["verdict"] == "violated", json.dumps(r, default=str)
 
 
-def _replay_reindex_numpy(cm):
+def replay_reindex(cm):
+    r = _replay_reindex_numpy(cm, wrapper=True)
+    return r["verdict"] == "violated", json.dumps(r, default=str)
+
+
+def _replay_reindex_numpy(cm, wrapper=False):
     import numpy as np
     import pandas as pd
 
-    from flox.core import reindex_numpy
+    from flox.core import reindex_, reindex_numpy
 
     frm = list(cm["from_"].get("labels") or [])
     to = list(cm["to"].get("labels") or [])
     arr = np.array([_val_to_float(v) for v in cm["array"]], dtype="float64")
-    if len(set(frm)) != len(frm) or len(arr) != len(frm) or not frm:
+    if len(set(frm)) != len(frm) or len(arr) != len(frm) or (not frm and not wrapper):
         return {"verdict": "outside-precondition"}
-    fill = None if cm.get("fill_value") is None else _val_to_float(cm["fill_value"])
+    fv = cm.get("fill_value")
+    is_na = isinstance(fv, str) and "NA" in fv
+    fill = None if fv is None else (float("nan") if is_na else _val_to_float(fv))
     absent = [t for t in to if t not in frm]
     try:
-        out = reindex_numpy(arr.copy(), pd.Index(frm), pd.Index(to), fill, np.dtype("float64"), -1)
+        if wrapper:
+            from flox import xrdtypes
+            from flox.core import ReindexArrayType
+
+            out = reindex_(arr.copy(), pd.Index(frm, dtype="int64"), pd.Index(to, dtype="int64"), fill_value=xrdtypes.NA if is_na else fill, axis=-1, array_type=getattr(ReindexArrayType, str(cm.get("array_type", "AUTO")).rstrip(">").split(".")[-1]))
+            if not frm and fill is None:
+                return {"verdict": "held" if len(out) == len(to) else "violated", "clauses": ["one_slot_per_requested_label"]}
+        else:
+            out = reindex_numpy(arr.copy(), pd.Index(frm), pd.Index(to), fill, np.dtype("float64"), -1)
     except ValueError as e:
         ok = fill is None and bool(absent)
         return {"verdict": "held" if ok else "violated", "clauses": [] if ok else ["only_when_a_label_is_absent_and_no_fill"], "raised": repr(e)}
@@ -245,5 +280,137 @@ def _replay_reindex_numpy(cm):
     return {"verdict": "violated" if bad else "held", "clauses": sorted(set(bad)), "input": {"array": arr.tolist(), "from": frm, "to": to, "fill": fill}, "output": out.tolist()}
 
 
+# ---------------------------------------------------------------------------------------------
+# reindex_(array, from_, to, *, array_type, fill_value, axis, promote)   (C05.reindex, C02.reindex)
+# ---------------------------------------------------------------------------------------------
+
+NA = ModRef("flox.xrdtypes.NA")
+
+
+def _reindex_spec(arr, frm, to, res, fill):
+    """The postcondition shared by reindex_numpy and reindex_: a dictionary lookup by label."""
+    j, i = fresh("j"), fresh("i")
+    present = lambda t, pos: z3.And(in_range(pos, 0, frm.length), frm.at(pos) == to.at(t))
+    cl = [
+        ("one_slot_per_requested_label", res.length == to.length),
+        ("present_labels_keep_their_value", z3.ForAll([j, i], z3.Implies(z3.And(in_range(j, 0, to.length), present(j, i)), res.at(j) == arr.at(i)))),
+    ]
+    if fill is not None:
+        cl.append(("absent_labels_get_the_fill", forall(j, z3.Implies(z3.And(in_range(j, 0, to.length), forall(i, z3.Implies(in_range(i, 0, frm.length), frm.at(i) != to.at(j)))), res.at(j) == fill))))
+    return cl
+
+
+def callee_full_like(ex, st, args, kwargs, node):
+    shape = kwargs["shape"]
+    n = shape[-1] if isinstance(shape, tuple) else shape
+    fv = args[1]
+    if fv is None or isinstance(fv, ModRef):
+        fv = z3.Const(f"rendering_of_{'None' if fv is None else 'NA'}", V.Val)  # outside the Val sort: an unconstrained value
+    else:
+        fv = V.as_val(fv)
+    return SSeq(n, lambda i: fv, kind="array", elem_sort=V.Val, name="full_like")
+
+
+def callee_pd_index(ex, st, args, kwargs, node):
+    x = args[0]
+    return x if isinstance(x, IndexRec) else IndexRec(x)
+
+
+def callee_range_index(ex, st, args, kwargs, node):
+    n = args[0]
+    return IndexRec(SSeq(z3.If(n > 0, n, 0), lambda i: i, kind="array", name="rangeindex"))
+
+
+def callee_isnull_scalar(ex, st, args, kwargs, node):
+    x = args[0]
+    if x is None:
+        return True  # pandas.isnull(None)
+    if isinstance(x, ModRef):
+        return False
+    return V.is_nan(x)
+
+
+def reindex_contract(fill_kind, array_type, empty):
+    """fill_kind: 'sym' (a non-NaN value), 'nan', 'NA', 'None'; array_type: AUTO | NUMPY; empty: array has no slot at all."""
+
+    def params(ex):
+        fill = {"sym": z3.Const("fill", V.Val), "nan": V.nan, "NA": NA, "None": None}[fill_kind]
+        return {"array": sym_seq("array", V.Val), "from_": IndexRec(sym_seq("from_labels")), "to": IndexRec(sym_seq("to_labels")), "array_type": ModRef(f"flox.core.ReindexArrayType.{array_type}"),
+                "fill_value": fill, "axis": -1, "promote": False}
+
+    def requires(ex, env):
+        i, j = fresh("i"), fresh("j")
+        frm = env["from_"].labels
+        r = [env["array"].length == frm.length, (frm.length == 0) if empty else (frm.length >= 1),
+             z3.ForAll([i, j], z3.Implies(z3.And(in_range(i, 0, frm.length), in_range(j, 0, frm.length), i != j), frm.at(i) != frm.at(j)))]
+        if fill_kind == "sym":
+            r.append(z3.Not(V.is_nan(env["fill_value"])))
+        return r
+
+    def ensures(ex, env, res):
+        e = env["__entry__"]
+        fill = {"sym": e["fill_value"], "nan": V.nan, "NA": V.nan, "None": None}[fill_kind]
+        if empty and fill_kind in ("None", "NA"):
+            # every slot gets np.full_like's rendering of None / NA: outside the Val sort, only the length is stated
+            return _reindex_spec(e["array"], e["from_"].labels, e["to"].labels, res, None)[:1]
+        return _reindex_spec(e["array"], e["from_"].labels, e["to"].labels, res, fill)
+
+    def exc_ensures(ex, env, exc):
+        to, frm = env["to"].labels, env["from_"].labels
+        j, i = fresh("j"), fresh("i")
+        absent = z3.Exists([j], z3.And(in_range(j, 0, to.length), forall(i, z3.Implies(in_range(i, 0, frm.length), frm.at(i) != to.at(j)))))
+        return [("only_when_a_label_is_absent_and_no_fill", z3.And(z3.BoolVal(fill_kind == "None"), absent))]
+
+    return Contract(qualname="reindex_", file="flox/core.py", prefix=f"C05.reindex_.fill{fill_kind}.{array_type}.{'empty' if empty else 'nonempty'}", params=params, requires=requires, ensures=ensures,
+                    raises=("ValueError",), exc_ensures=exc_ensures, serves=("C05", "C02", "C10"), replay=replay_reindex,
+                    assumed=("pandas.Index.equals / get_indexer", "xrdtypes.maybe_promote on floating dtypes returns NaN", "np.full_like(shape=...) fills every slot", "arrays are 1-D along the reindexed axis (leading axes are carried by NumPy broadcasting)"))
+
+
+REINDEX_CALLEES = {}
+
+
+def reindex_callees():
+    from ..pyvc.prims import Raised  # noqa: F401
+
+    c = ReindexNumpyCallee()
+    return {"reindex_numpy": lambda ex, st, a, k, n: c.pyvc_call(ex, st, a, k, n, None), "isnull": callee_isnull_scalar,
+            "is_same_type": lambda ex, st, a, k, n: True}  # AUTO: True; NUMPY: isinstance(array, np.ndarray), which the arrays of this contract are
+
+
+class ReindexNumpyCallee:
+    """reindex_numpy at a call site: requires, then either raises ValueError (no fill and a label absent) or returns a
+    sequence satisfying the proved postcondition."""
+
+    def pyvc_call(self, ex, st, args, kwargs, node, prims):
+        from ..pyvc.prims import Raised
+
+        arr, frm, to, fill = args[0], args[1].labels, args[2].labels, args[3]
+        i, j = fresh("i"), fresh("j")
+        ex.oblige(st, z3.And(arr.length == frm.length, frm.length >= 1), ex._name("pre.reindex_numpy", node), "requires of reindex_numpy: one value per label of from_, from_ not empty")
+        res = sym_seq(f"reindexed_{fresh('r').decl().name()}", V.Val)
+        if fill is None:
+            wit = fresh("absent")
+            absent_w = z3.And(in_range(wit, 0, to.length), forall(i, z3.Implies(in_range(i, 0, frm.length), frm.at(i) != to.at(wit))))
+            none_absent = forall(j, z3.Implies(in_range(j, 0, to.length), z3.Not(forall(i, z3.Implies(in_range(i, 0, frm.length), frm.at(i) != to.at(j))))))
+            out = []
+            s1 = st.fork()
+            s1.assume(absent_w)
+            out.append((s1, Raised("ValueError")))
+            s2 = st.fork()
+            s2.assume(none_absent)
+            for name, f in _reindex_spec(arr, frm, to, res, None):
+                s2.assume(f)
+            out.append((s2, res))
+            return out
+        for name, f in _reindex_spec(arr, frm, to, res, fill):
+            st.assume(f)
+        return res
+
+
 def all_reindex():
-    return [reindex_numpy_contract("sym"), reindex_numpy_contract("None")]
+    out = [reindex_numpy_contract("sym"), reindex_numpy_contract("None")]
+    for fk in ("sym", "nan", "NA", "None"):
+        for at in ("AUTO", "NUMPY"):
+            for empty in (False, True):
+                out.append(reindex_contract(fk, at, empty))
+    return out
